@@ -360,7 +360,8 @@ fn fam_nfb(t: &mut Tracer, rng: &mut Rng, cx: &Ctx) {
     let mut nfbs: Vec<u32> = vec![16, 1, 2];
     let extra = if cx.thorough { 6 } else { 2 };
     for _ in 0..extra {
-        nfbs.push(rng.range(3, 64) as u32);
+        // small non-powers of two are as likely as anything else
+        nfbs.push(*rng.pick(&[3u32, 5, 6, 7, 9, 10, 12, 24, 48, 63, 64]));
     }
     for nfb in nfbs {
         let spec = BuildSpec { var, kind, entry: "new", via_builder: true, nfb, pats: pats.clone() };
@@ -716,12 +717,28 @@ fn conv_typed<V: Val>(t: &mut Tracer, rng: &mut Rng, var: Var, kind: Kind) {
 fn fam_invalid(t: &mut Tracer, rng: &mut Rng, cx: &Ctx) {
     let var = if rng.chance(1, 2) { Var::C } else { Var::B };
     let kind = *rng.pick(&[Kind::Std, Kind::LL, Kind::LF, Kind::LF]);
-    if rng.chance(1, 5) {
-        if rng.chance(1, 2) {
+    if rng.chance(1, 4) {
+        if rng.chance(2, 3) {
             conv_typed::<u8>(t, rng, var, kind);
         } else {
             conv_typed::<i8>(t, rng, var, kind);
         }
+        return;
+    }
+    if rng.chance(1, 6) {
+        // a repeated LONG pattern of mixed character widths / arbitrary bytes: the error path formats it
+        let alpha: Vec<u32> = if var == Var::C { vec![0x61, 0xe9, 0x4e16, 0x1f600, 0x62] } else { vec![0, 1, 0x61, 0x80, 0xff] };
+        let n = rng.range(11, 45);
+        let long: Pat = (0..n).map(|_| *rng.pick(&alpha)).collect();
+        let nshort = rng.below(3);
+        let mut pats = gen_patterns(rng, &alpha, nshort, 3);
+        pats.retain(|p| *p != long);
+        let at = rng.range(0, pats.len());
+        pats.insert(at, long.clone());
+        let at2 = rng.range(at + 1, pats.len());
+        pats.insert(at2, long);
+        let spec = BuildSpec { var, kind, entry: "new", via_builder: true, nfb: 16, pats };
+        let _ = ev_build::<u32>(t, &spec, &[]);
         return;
     }
     let vt: &str = *rng.pick(ALL_TYPES);
@@ -1035,7 +1052,7 @@ fn fam_decode(t: &mut Tracer, rng: &mut Rng, _cx: &Ctx) {
 fn fam_values(t: &mut Tracer, rng: &mut Rng, cx: &Ctx, i: u64) {
     // (not i % len: the family schedule is periodic in i as well and would never reach some types)
     let _ = i;
-    let vt = *rng.pick(ALL_TYPES);
+    let vt = if rng.chance(1, 4) { *rng.pick(&["usize", "isize", "i128", "u128", "u64", "i64"]) } else { *rng.pick(ALL_TYPES) };
     let var = if rng.chance(1, 2) { Var::C } else { Var::B };
     let kind = *rng.pick(&[Kind::Std, Kind::LL, Kind::LF]);
     with_val!(vt, small_typed(t, rng, cx, var, kind));
@@ -1084,13 +1101,12 @@ pub fn family_of(prop: &str, i: u64) -> &'static str {
             1 | 5 | 9 => "shadow",
             _ => "small",
         },
-        "C10" => {
-            if i % 20 == 19 {
-                "dict"
-            } else {
-                "invalid"
-            }
-        }
+        "C10" => match i % 20 {
+            19 => "dict",
+            7 | 13 => "nfb", // valid collections under many builder settings
+            3 => "wide",
+            _ => "invalid",
+        },
         "C11" => match i % 8 {
             3 | 7 => "nfb",
             5 => "wide",
